@@ -30,6 +30,10 @@ _FUN = {
     "np.abs": sp.Abs,
     "abs": sp.Abs,
     "np.square": lambda x: x**2,
+    "np.ceil": sp.ceiling,
+    "math.ceil": sp.ceiling,
+    "np.floor": sp.floor,
+    "math.floor": sp.floor,
 }
 _FUN2 = {
     "np.minimum": sp.Min,
@@ -107,6 +111,8 @@ class Translator:
                 return self.tr(e.func.value)
             if n in TRANSPARENT_CALLS and e.args:
                 return self.tr(e.args[0])
+            if n == "int" and len(e.args) == 1 and isinstance(e.args[0], ast.Call) and call_name(e.args[0]) in ("np.ceil", "np.floor", "math.ceil", "math.floor", "round", "np.round"):
+                return self.tr(e.args[0])  # int() of an integral float is the identity
             if n in _FUN and len(e.args) == 1:
                 return _FUN[n](self.tr(e.args[0]))
             if n in _FUN2 and len(e.args) == 2:
